@@ -27,6 +27,7 @@ struct Args {
     call_log: Option<PathBuf>,
     only_group: Option<u64>,
     no_evidence: bool,
+    phase: String,
 }
 
 fn parse() -> Args {
@@ -51,6 +52,7 @@ fn parse() -> Args {
         call_log: None,
         only_group: None,
         no_evidence: false,
+        phase: String::new(),
     };
     if let Ok(t) = std::env::var("VERIF_TIER") {
         if t == "thorough" {
@@ -89,6 +91,7 @@ fn parse() -> Args {
             "--call-log" => a.call_log = it.next().map(PathBuf::from),
             "--group" => a.only_group = it.next().and_then(|s| s.parse().ok()),
             "--no-evidence" => a.no_evidence = true,
+            "--phase" => a.phase = it.next().unwrap_or_default(),
             s if !s.starts_with("--") && a.prop.is_empty() => a.prop = s.to_string(),
             other => {
                 eprintln!("unknown argument {other}");
@@ -116,6 +119,7 @@ fn main() {
 fn worker_main(args: &Args, k: usize, n: usize) {
     let mut ctx = Ctx::new(&args.prop, args.tier, args.seed, k, n);
     ctx.only_group = args.only_group;
+    ctx.phase = args.phase.clone();
     let b = ctx.build.clone();
     ctx.note("build", json!(b));
     if let Some(p) = &args.call_log {
@@ -191,6 +195,9 @@ fn parent_main(args: &Args) {
                 .stderr(Stdio::null());
             if prop == "C17" {
                 c.arg("--call-log").arg(&log);
+            }
+            if !args.phase.is_empty() {
+                c.arg("--phase").arg(&args.phase);
             }
             match c.spawn() {
                 Ok(child) => running.push(Running {
@@ -319,6 +326,17 @@ fn finish(
     t0: Instant,
 ) {
     let prop = &args.prop;
+    let emit = args.phase == "emit";
+    let work = args.verif_dir.join("replay").join(".work").join(prop);
+    let _ = std::fs::create_dir_all(&work);
+    // the emit phase of a two-phase monitor leaves its own counts for the check phase
+    let mut emit_wall = 0.0f64;
+    if args.phase == "check" {
+        if let Some(v) = std::fs::read(work.join("emit-summary.json")).ok().and_then(|b| serde_json::from_slice::<Value>(&b).ok()) {
+            emit_wall = v["wall_s"].as_f64().unwrap_or(0.0);
+            merged.notes.insert("emit_phase".into(), v);
+        }
+    }
     // distinct non-trivial
     merged.fingerprints.sort_unstable();
     merged.fingerprints.dedup();
@@ -350,9 +368,16 @@ fn finish(
     let missing: Vec<String> = merged
         .required
         .iter()
-        .filter(|c| merged.cells.get(*c).copied().unwrap_or(0) == 0)
+        .filter(|c| !emit && merged.cells.get(*c).copied().unwrap_or(0) == 0)
         .cloned()
         .collect();
+    if emit {
+        let _ = std::fs::write(
+            work.join("emit-summary.json"),
+            serde_json::to_vec(&json!({"wall_s": t0.elapsed().as_secs_f64(), "evaluations": merged.evaluations,
+                "cells": merged.cells, "counters": merged.counters, "builds": builds})).unwrap(),
+        );
+    }
 
     // replay files
     let replay_dir = args.verif_dir.join("replay");
@@ -377,14 +402,14 @@ fn finish(
     } else if !crashed.is_empty()
         || !merged.harness_errors.is_empty()
         || !missing.is_empty()
-        || distinct < 2
+        || (distinct < 2 && !emit)
     {
         "inconclusive"
     } else {
         "held"
     };
 
-    if !args.no_evidence {
+    if !args.no_evidence && !emit {
         let mut samples = merged.samples.clone();
         if samples.is_empty() {
             samples.push(json!({"note":"no sample recorded"}));
@@ -413,7 +438,7 @@ fn finish(
                 "workers": args.workers,
             },
             "assumptions": monitors::assumptions(prop),
-            "wall_s": t0.elapsed().as_secs_f64(),
+            "wall_s": t0.elapsed().as_secs_f64() + emit_wall,
             "violations": new_violations.len(),
             "known_findings_observed": known_lines,
             "verdict": verdict,
@@ -462,7 +487,7 @@ fn finish(
             &format!("required-cell-empty:{}", missing[0].replace(' ', "_")),
         );
     }
-    if distinct < 2 {
+    if distinct < 2 && !emit {
         inconclusive(prop, "too-few-events");
     }
     std::process::exit(0);
